@@ -156,7 +156,7 @@ def desc_of(enc):
 
 def typed_program(rng):
     """A module that is well typed by construction: the type-directed core generator without failure injection."""
-    lines = gen_core.gen_program(rng, max_stmts=rng.choice([15, 30, 50]), inject_fail=0.0, risk=0.0, no_mutation=True)
+    lines = gen_core.gen_program(rng, max_stmts=rng.choice([15, 30, 50]), inject_fail=0.0, risk=0.0, no_mutation=True, tick_p=0.0)
     out = []
     for ind, t in lines:
         m = re.fullmatch(r"emit\(([A-Za-z_][A-Za-z_0-9]*)\)", t)
